@@ -59,6 +59,18 @@ def run(run):
                 if nest_depth(m) <= 30:
                     reqs.append(sqlgen.parse_request("statements", d, m))
                     texts.append(m)
+    # 1b. every slot of the grammar that wants an integer, fed with things that are not (quite) integers
+    SLOTS = ["SELECT a FROM t LIMIT {}", "SELECT a FROM t LIMIT 1, {}", "SELECT a FROM t LIMIT {}, 1", "SELECT a FROM t LIMIT 1 OFFSET {}", "DELETE FROM t LIMIT {}",
+             "SELECT CAST(a AS DECIMAL({}, 2)) FROM t", "SELECT CAST(a AS CHAR({})) FROM t", "SELECT sum(a) OVER (ORDER BY b ROWS BETWEEN {} PRECEDING AND CURRENT ROW) FROM t",
+             "SELECT sum(a) OVER (ROWS BETWEEN UNBOUNDED PRECEDING AND {} FOLLOWING) FROM t", "CREATE TABLE t (a INT, KEY k (a({})))", "CREATE TABLE t (a INT) AUTO_INCREMENT={}",
+             "CREATE TABLE t (a INT, PRIMARY KEY (a) KEY_BLOCK_SIZE={})", "SELECT a FROM t ORDER BY {}", "SELECT a FROM t GROUP BY {}", "UPDATE t SET a = 1 LIMIT {}"]
+    FILLERS = ["\u00b2", "\u2460", "\u00bd", "1.5", "x", "'1'", "-", "+1", "-1", "0x1", "1e2", "", "NULL", "1 1", "(1)", "1)", "00", "9" * 30]
+    for tpl in SLOTS:
+        for fill in FILLERS:
+            m = tpl.format(fill)
+            for d in dialects[:2]:
+                reqs.append(sqlgen.parse_request("statements", d, m))
+                texts.append(m)
     # 2. token soups for every entry point
     soup_reqs, soup_texts = [], []
     for e in ents:
